@@ -197,7 +197,12 @@ CHECKS["C15"] = {
             "URI, in order (C15_elements_one_node_each); a bundle's cluster carries its URI and holds exactly its elements "
             "(C15_cluster_elements); a relation with two endpoints is one labelled edge, or two edges through one blank node, "
             "between nodes of the endpoints' URIs (C15_relation_path); every further end of an n-ary relation has its labelled "
-            "edge to a node of its URI (C15_nary_further_ends). Labels, annotation rows, styles and Graphviz's acceptance are "
+            "edge to a node of its URI (C15_nary_further_ends). HTML-like labels (DotLabel.v): the annotation table of a record's "
+            "attributes and the two-line label of an element drawn under its prov:label are modelled character by character (tied "
+            "per run to the labels of the pydot object: exact text equality) and proved accepted by an acceptor written from "
+            "Graphviz's HTML-label grammar (XML lexical level, table/row/cell/text nesting) for every list of rows and all texts of "
+            "XML characters (C15_annotation_table_accepted, C15_fancy_label_accepted; C15_F1_refuted for a control character); that "
+            "the acceptor accepts no more than Graphviz is measured per run. Styles and Graphviz's acceptance of the whole text are "
             "validated, not proved: every generated document x 7 (quick) / all 80 (thorough) option combinations goes through "
             "the real Graphviz (dot -Tdot_json): acceptance, rankdir, one labelled node per element in its bundle's cluster, "
             "one direct or blank-node path per two-ended relation with the right URLs and direction, the fan of every n-ary "
